@@ -9,8 +9,9 @@ import vlib
 
 def sched_sig(o):
     s = o["sched"]
-    return "policy=%s auth=%s ack=%s info=%s lat=%s%s" % (s.get("policy"), s.get("auth"), s.get("ackAt"), s.get("infoAt"), s.get("lat"),
-                                                         " write-stall" if o.get("stalled") else "")
+    extra = (" write-stall" if o.get("stalled") else "") + (" settings-again@%ss" % s["info2"] if "info2" in s else "") + (
+        " scheduler-late@%ss+%sms" % (s["late"]["at"], s["late"]["ms"]) if "late" in s else "")
+    return "policy=%s auth=%s ack=%s info=%s lat=%s%s" % (s.get("policy"), s.get("auth"), s.get("ackAt"), s.get("infoAt"), s.get("lat"), extra)
 
 
 def timeline(obs):
@@ -48,6 +49,15 @@ def run_c07(prop, tier):
         for k in (1, 3, 9):
             for lat in ([16, 1, 1], [4, 12, 2]):
                 recs.append({"sched": {"auth": 0, "ackAt": 1, "infoAt": 1, "lat": lat, "policy": pol}, "wstall": {"at": 15, "k": k, "release": 24}})
+    # ... a client that sends its settings once more while it waits (before / after the first Keep Alive, back to back with the first ones)
+    for at in (1, 5, 17, 20):
+        for lat in ([20, 4, 2], [4, 40, 2]):
+            recs.append({"sched": {"auth": 0, "ackAt": 1, "infoAt": 1, "lat": lat, "policy": "prompt", "info2": at}})
+    # ... a scheduler that is busy when the first Keep Alive is due (it goes out a few ms / a few hundred ms late): a silent client is still
+    # timed out when the NEXT one is due, an echoing one is not affected
+    for by in (1, 4, 300):
+        for pol in ("never", "prompt", "wrong"):
+            recs.append({"sched": {"auth": 0, "ackAt": 1, "infoAt": 1, "lat": [60, 4, 2], "policy": pol, "late": {"at": 16, "ms": by}}})
     # ... and with an echo that arrives in two pieces around the completion of a routing step (discovery done at 21 s: the echo of the
     # Keep Alive of 16 s starts at 19 s and is complete at 24 s -- in time), routing then outlasts the next deadlines
     for cut in (1, 3, 5, 9):
